@@ -97,6 +97,16 @@ def protocol_calls(rnd, n):
                {"c": "prove_tree", "sec": s, "idx": idx, "lim": I(10), "mid": I(1), "e": I(3), "sig": sig, "trunc": 50}]
         if k > 0:
             sc += [{"c": "recover", "msg": f"m{k}", "msg2": f"m{k-1}"}, {"c": "recover", "msg": f"m{k}", "msg2": f"m{k}"}]
+        if k < 2:
+            # the same member double-signals (the secret comes out) and signals in another epoch (success with an EMPTY output)
+            mid = I(4)
+            sig2 = {"len": 5, "seed": rnd.randrange(1 << 30)}
+            sc += [{"c": "prove_tree", "sec": s, "idx": idx, "lim": I(10), "mid": mid, "e": I(3), "sig": sig, "store": f"d{k}a"},
+                   {"c": "prove_tree", "sec": s, "idx": idx, "lim": I(10), "mid": mid, "e": I(3), "sig": sig2, "store": f"d{k}b"},
+                   {"c": "prove_tree", "sec": s, "idx": idx, "lim": I(10), "mid": mid, "e": I(4), "sig": sig2, "store": f"d{k}c"},
+                   {"c": "recover", "msg": f"d{k}a", "msg2": f"d{k}b"},
+                   {"c": "recover", "msg": f"d{k}a", "msg2": f"d{k}c"},
+                   {"c": "recover", "msg": f"d{k}c", "msg2": f"d{k}b"}]
     return sc
 
 
